@@ -69,6 +69,7 @@ type Contract struct {
 	Ghosts   []SpecParam
 	Preimages []*PreClause
 	HashFamily string
+	Pure       bool // frame + determinism obligations (C09)
 	WireLen    []*Clause // wire-length <= expr: byte length of what the function writes to its Encoder
 	CallAsserts map[string][]*Clause // at <call site> assert <expr> ($arg0.. are the actual arguments)
 	HashOf     *SExpr   // digest expression of the family member (default: result)
@@ -124,7 +125,7 @@ var (
 var clauseKeywords = map[string]bool{
 	"prop": true, "mode": true, "requires": true, "ensures": true, "panics-iff": true, "may-panic": true,
 	"invariant": true, "decreases": true, "unroll": true, "modifies": true, "let": true, "trusted": true,
-	"abstract": true, "inline": true, "split": true, "assert": true, "replay": true, "no-panic": true, "ghost": true, "instance": true, "preimage": true, "hash-family": true, "concrete": true, "wire-length": true, "at": true,
+	"abstract": true, "inline": true, "split": true, "assert": true, "replay": true, "no-panic": true, "ghost": true, "instance": true, "preimage": true, "hash-family": true, "concrete": true, "wire-length": true, "at": true, "pure": true,
 }
 
 // qualify turns a contract-file function key into the ssa full name.
@@ -359,6 +360,8 @@ func (cs *ContractStore) addClause(c *Contract, kw, rest, where string) error {
 		}
 		site := strings.TrimSpace(parts[0])
 		c.CallAsserts[site] = append(c.CallAsserts[site], &Clause{Kind: "assert", Label: label, Expr: e, Src: rest, Line: where})
+	case "pure":
+		c.Pure = true
 	case "concrete":
 		c.Concrete = append(c.Concrete, strings.Fields(strings.ReplaceAll(rest, ",", " "))...)
 	case "hash-family":
